@@ -500,8 +500,13 @@ def gen_src(rng, u, primary, creator, srctype=None, refcode=None, ncallouts=None
         flags |= 0x01
     srcver = rng.randrange(256)
     tail = ""
-    if rng.random() < 0.3:
+    r = rng.random()
+    if r < 0.3:
         tail = " " + u.token(6)
+    elif r < 0.36:
+        # a reference code that uses the whole 32-character field (or all but one character)
+        n = rng.choice([32, 32, 31]) - len(refcode)
+        tail = " " + u.token(6) + rtext(rng, n - 7, ALNUM + "-", 0)
     ascii32 = (refcode + tail).ljust(32)[:32]
     sub = b""
     if has_sub:
